@@ -16,7 +16,7 @@ from vk import probe
 LEVEL = 'exploration'
 RULE = ('integers: every integer of the symmetric range (partitioned over shards, so '
         'distinct by construction) plus +-(32^k-1), +-32^k, +-(32^k+1) and the same around '
-        '2^(5k-1) for k<=80; non-trivial = the encoding needs a continuation digit (|i|>=16). '
+        '2^(5k-1) for k<=80, and 2^(5k) for k up to 20000 (encodings of thousands of digits); non-trivial = the encoding needs a continuation digit (|i|>=16). '
         'strings: every string of length<=3 over the base64 alphabet that refvlq certifies '
         'complete and canonical; non-trivial = length>=2. lists / mapping structures: '
         'seeded random; non-trivial = at least two integers.')
@@ -201,6 +201,11 @@ def boundaries():
         for d in (-1, 0, 1):
             out.add(10 ** k + d)
             out.add(-(10 ** k) + d)
+    # integers whose encoding has hundreds to thousands of digits (one step of whatever the codec does per digit)
+    for k in (250, 600, 990, 1000, 1024, 2000, 5000, 20000):
+        for d in (-1, 0, 1):
+            out.add(2 ** (5 * k) + d)
+            out.add(-(2 ** (5 * k)) + d)
     for x in (2 ** 53, 2 ** 24, 0xFFFFFFFF, 0x7FFFFFFF, 0xFFFFFFFFFFFFFFFF, 0x7FFFFFFFFFFFFFFF, 1 << 62, (1 << 63) - 1, 1 << 31):
         for d in (-1, 0, 1):
             out.add(x + d)
@@ -210,8 +215,14 @@ def boundaries():
 
 def check_int(ctx, vlq, i):
     """round-trip laws for one integer (the contracts check canonical form)."""
-    e = vlq.encode_vlq(i)
-    d = vlq.decode_vlq(e)
+    try:
+        e = vlq.encode_vlq(i)
+        d = vlq.decode_vlq(e)
+    except Exception as exc:
+        # "for every integer": there is no integer the codec may refuse
+        ctx.violation('C10:codec_raised:%s' % type(exc).__name__, {'fn': 'roundtrip_int', 'arg': str(i) if abs(i) < 2 ** 400 else hex(i)},
+                      'encode_vlq / decode_vlq raised %s: %s for an integer of %d bits' % (type(exc).__name__, str(exc)[:120], i.bit_length()))
+        return
     if d != i:
         ctx.violation('C10:roundtrip_int', {'fn': 'roundtrip_int', 'arg': str(i)},
                       'decode_vlq(encode_vlq(%d)) = %r via %r' % (i, d, e))
@@ -319,7 +330,7 @@ def run(ctx):
             for i in bs:
                 check_int(ctx, vlq, i)
                 maxlen = max(maxlen, len(refvlq.encode(i)))
-                ctx.case(('int', i), True, sample={'integer': str(i), 'encoded': refvlq.encode(i)}
+                ctx.case(('int', i) if abs(i) < 2 ** 2000 else ('huge_int', i.bit_length(), i & 0xffff, i < 0), True, sample={'integer': str(i), 'encoded': refvlq.encode(i)}
                          if i in (32 ** 3 - 1, -(2 ** 64)) else None)
             ctx.count('boundary_integers', len(bs))
             ctx.extra['max_encoded_length'] = maxlen
@@ -371,7 +382,7 @@ def _run_witness(ctx, w):
     try:
         fn, arg = w['fn'], w['arg']
         if fn in ('encode_vlq', 'roundtrip_int'):
-            check_int(ctx, vlq, int(arg))
+            check_int(ctx, vlq, int(arg, 0))
         elif fn in ('encode_vlqs', 'roundtrip_list'):
             check_list(ctx, vlq, [int(a) for a in arg])
         elif fn in ('decode_vlq', 'decode_vlqs', 'roundtrip_string'):
